@@ -14,6 +14,6 @@ The following semantic property of the code base is supposed to hold:
 
 TASK: write ONE realistic change to the repository's production code (the kind of regression a plausible refactoring, optimisation or "cleanup" could introduce) that BREAKS this property while the code still compiles (`go build ./...`) and the existing test suite still passes (run at least the tests of every package you touched and of the packages that directly exercise it, e.g. `go test -vet=off -count=1 -p 4 <pkgs>`; do not edit or delete existing tests or testdata; files guarded by the build tag `verif` are instrumentation — do not touch them). The breakage must need something specific to manifest — a particular interleaving, a crash or fault at a particular point, a multi-step sequence of operations, an unusual input, or two cooperating sites that each look fine alone — not something ordinary use would expose at once. Prefer a subtle semantic slip over crude sabotage. {hint}
 
-Then write a DEMONSTRATION: a Go test file (name it `seed_demo_test.go`, test function names starting with `TestSeed`, placed in the package it tests) or a small program + `demo.sh` script that FAILS with your change and PASSES on the original code — verify both (`git diff > /tmp/p.diff; git checkout -- <files>; run; git apply /tmp/p.diff; run`).
+Then write a DEMONSTRATION: a Go test file (name it `seed_demo_test.go`, test function names starting with `TestSeed`, placed in the package it tests) or a small program + `demo.sh` script that FAILS with your change and PASSES on the original code — verify both (`git diff > {wt}/_seed/patch.diff; git checkout -- <files>; run; git apply {wt}/_seed/patch.diff; run`).
 
 Leave in {wt}/_seed/ : `patch.diff` (`git diff` of the production-code change only, applicable with `git apply` at the repo root), a copy of the demonstration file(s), and `meta.json` = {{"property":"{pid}","summary":"<what the change does>","needs":"<what it needs in order to manifest>","demo":"<how to run the demo>","demo_dir":"<package directory the *_test.go demo belongs in, relative to the repo root, or empty if demo.sh>","tests_run":"<exact commands you ran and their result>"}}. Leave the worktree with your change applied. Reply with a 5-line summary.""")
